@@ -249,8 +249,6 @@ func runSubscriberGroup(t *testing.T, group []map[string]any, withVerifier, metr
 		chain := vh.NewChain(networkID, 1, len(group)+5, time.Now().Add(-time.Hour), time.Second, 0)
 		var recs []C11Rec
 		var mids []string
-		var lastAccepted []byte      // the bytes of the last remote message that was accepted
-		var lastAcceptedHdr *vh.Header
 		again := 0
 		for gi, c := range group {
 			in := mbt.Map(c, "in")
@@ -270,13 +268,20 @@ func runSubscriberGroup(t *testing.T, group []map[string]any, withVerifier, metr
 				hdr.DecodePanic = true
 			}
 			data, _ = hdr.MarshalBinary()
-			if mbt.Bool(in, "again") && lastAccepted != nil {
+			if mbt.Bool(in, "again") {
 				// the very header that was accepted a moment ago arrives once more in a distinct message (same header, other
 				// bytes: trailing white space; the message id is the hash of the bytes) — this time the verifier refuses it,
-				// as the Syncer's does with a header it knows already
+				// as the Syncer's does with a header it knows already.  The first message is published here (not a judged row).
 				again++
-				hdr = lastAcceptedHdr
-				data = append(append([]byte{}, lastAccepted...), bytes.Repeat([]byte(" "), again)...)
+				curKind = "nil"
+				_ = topicP.Publish(ctx, data)
+				time.Sleep(3 * time.Second)
+				synctest.Wait()
+				pctx, pcancel := context.WithTimeout(ctx, time.Second)
+				_, _ = subscription.NextHeader(pctx) // (taken out of the Subscription: the judged message is the next one)
+				pcancel()
+				curKind = mbt.Str(in, "verifier")
+				data = append(append([]byte{}, data...), bytes.Repeat([]byte(" "), again)...)
 			}
 			switch payload {
 			case "undecodable":
@@ -346,9 +351,6 @@ func runSubscriberGroup(t *testing.T, group []map[string]any, withVerifier, metr
 			dmu.Lock()
 			obs.Relayed = relayed[mid]
 			dmu.Unlock()
-			if payload == "valid" && obs.Verdict == "accept" {
-				lastAccepted, lastAcceptedHdr = data, hdr
-			}
 			obs.Crashed = obs.Crashed || crashed
 			obs.Final = obs.Verdict
 			recs = append(recs, C11Rec{Tr: id, In: in, Obs: obs})
